@@ -11,6 +11,13 @@
 // headers), and the verifier's history (every short sequence of verifications
 // of headers that re-use each other's votes, on one Server instance: the
 // verdict must be the stateless one).
+//
+// A fourth dimension (known.go): what the verifier's CHAIN already stores at
+// the header's height (nothing / the honest header with the same hash / the
+// very header / a sibling; canonical or side block; with a child) × every
+// forgery that keeps the header hash (the hash does not cover Validator,
+// Certificate and Signature) × every entry point: the verdict must be the
+// calculator's whatever the chain knows.
 package c01
 
 import (
@@ -468,29 +475,7 @@ func (x *ctx) check(s Spec, allPaths bool) {
 	case !acc && !e.O.Accept:
 		r.Count(pre+"agree_reject", 1)
 	}
-	report := func(paths []string, co bool) {
-		r.Count(pre+"VIOLATING_CASES_accepted_without_protocol_quorum", 1)
-		parts, explained := explain(x.c, e.F, co)
-		m := s
-		if !explained {
-			m = x.minimise(s, co)
-			parts = x.specSignature(m)
-		}
-		head := "accepted: "
-		if s.Scn == "cert" {
-			head = "accepted (certificate round): "
-		}
-		if co {
-			head = "accepted by VerifyAcHeader (certificate votes only): "
-		}
-		r.Count("violating_cases_by_signature: "+head+strings.Join(parts, " + "), 1)
-		me, _ := x.eval(m, false)
-		if me == nil {
-			me, m = e, s
-		}
-		x.offer(head, parts, m, me.O.SignerSeats, fmt.Sprintf("the real verifier accepts (%s) a header the protocol's quorum rule rejects.\nforged header: %s\noracle: %s\n%s",
-			strings.Join(paths, ","), describe(m), me.O, x.context()))
-	}
+	report := func(paths []string, co bool) { x.reportAccept(s, e, paths, co) }
 	if len(full) > 0 {
 		report(full, false)
 	}
@@ -500,15 +485,7 @@ func (x *ctx) check(s Spec, allPaths bool) {
 	if !acc && e.O.Accept {
 		if s.honestShaped() {
 			r.Count(pre+"VIOLATING_CASES_honest_header_rejected", 1)
-			sig := "rejected honest header: quorum subset of valid precommits"
-			if s.RI != "" {
-				sig = "rejected honest header: quorum of valid precommits re-voted at the next round index"
-			}
-			if s.Scn == "cert" {
-				sig = "rejected honest header (certificate round): quorum subsets of valid precommits and certificate votes"
-			}
-			x.offer("", []string{sig}, s, e.O.SignerSeats, fmt.Sprintf("the real verifier rejects (%s) a header built only from honest building blocks that carries a protocol-sized quorum.\nheader: %s\noracle: %s\n%s",
-				e.Paths[0].Err, describe(s), e.O, x.context()))
+			x.reportHonestRejected(s, e.O, e.Paths[0].Err)
 		} else {
 			// allowed: the verifier may refuse a malformed header even if it contains a quorum
 			r.Count(pre+"verifier_stricter_on_malformed_header", 1)
@@ -517,6 +494,50 @@ func (x *ctx) check(s Spec, allPaths bool) {
 	if acc != e.O.Accept || honest {
 		r.Sample(map[string]interface{}{"spec": describe(s), "verifier_accepts": acc, "verifier_error": e.Paths[0].Err, "oracle": e.O.String()})
 	}
+}
+
+// reportHonestRejected offers the rejection of a header built only from honest building blocks that carries a quorum.
+func (x *ctx) reportHonestRejected(s Spec, o Verdict, errText string) {
+	sig := "rejected honest header: quorum subset of valid precommits"
+	if s.RI != "" {
+		sig = "rejected honest header: quorum of valid precommits re-voted at the next round index"
+	}
+	if s.Scn == "cert" {
+		sig = "rejected honest header (certificate round): quorum subsets of valid precommits and certificate votes"
+	}
+	x.offer("", []string{sig}, s, o.SignerSeats, fmt.Sprintf("the real verifier rejects (%s) a header built only from honest building blocks that carries a protocol-sized quorum.\nheader: %s\noracle: %s\n%s",
+		errText, describe(s), o, x.context()))
+}
+
+// reportAccept offers a wrong acceptance (entry points `paths` accept, the oracle rejects) under the signature of its
+// root cause: the known relaxation that explains it, or the deviating dimensions of the minimised spec.
+func (x *ctx) reportAccept(s Spec, e *evalRes, paths []string, co bool) {
+	r := x.r
+	pre := ""
+	if s.Scn == "cert" {
+		pre = "cert: "
+	}
+	r.Count(pre+"VIOLATING_CASES_accepted_without_protocol_quorum", 1)
+	parts, explained := explain(x.c, e.F, co)
+	m := s
+	if !explained {
+		m = x.minimise(s, co)
+		parts = x.specSignature(m)
+	}
+	head := "accepted: "
+	if s.Scn == "cert" {
+		head = "accepted (certificate round): "
+	}
+	if co {
+		head = "accepted by VerifyAcHeader (certificate votes only): "
+	}
+	r.Count("violating_cases_by_signature: "+head+strings.Join(parts, " + "), 1)
+	me, _ := x.eval(m, false)
+	if me == nil {
+		me, m = e, s
+	}
+	x.offer(head, parts, m, me.O.SignerSeats, fmt.Sprintf("the real verifier accepts (%s) a header the protocol's quorum rule rejects.\nforged header: %s\noracle: %s\n%s",
+		strings.Join(paths, ","), describe(m), me.O, x.context()))
 }
 
 func describe(s interface{}) string {
@@ -740,7 +761,7 @@ func (x *ctx) exploreBoundary() {
 func Run(r *mc.Run) {
 	Quiet()
 	r.Level = "exploration"
-	r.Rule = "every forged header is a value vector over the dimensions (vote subset of the entitled members; one vote mutation: duplicate ×2/×3, replayed credential of another round index/step/round, signature over another hash, weight +1/×2/2^32-1/0 per target voter, or a non-member vote: out-of-range index/house/offline/zero-stake; header-declared ValidatorThreshold, ProposerThreshold, CertValThreshold ∈ {0,1,10,protocol,×2,2^64-1} with credentials left honest or recomputed under the declared value; aggregate signature ∈ {listed, distinct signers, one dropped, other payload, infinity, empty, undecodable, non-member's}; UconValidators.RoundIndex ∈ {same, other with replayed votes, other with re-votes}; proposer ∈ {honest, j=0, wrong priority, seats+1, non-member, house, offline, proof of another index}); explored per fixture: the full product (subset × ValidatorThreshold × aggregate) + the full product of every pair of dimensions, others honest [+ three triples in thorough]; certificate-round scenario: full product (certificate subset × CertValThreshold declared by the planted look-back header × certificate aggregate) + (precommit subset × certificate subset); each header is built with real keys and given to the real VerifyHeader(seal) (single-deviation headers also to VerifySeal and VerifySideChainHeader; certificate headers also to VerifySeal and VerifyAcHeader) and to the independent quorum calculator; non-trivial = differs from the honest header; distinct = distinct value vectors actually built || LOOK-BACK SEPARATION: in every fixture the stake look-back header, the seed look-back header, the parent, the block itself, every other header (and, certificate rounds, the certificate stake look-back header) commit to DIFFERENT validator sets (other stakes ⇒ other seat counts and other voter indexes, a record without stake in the look-back set has stake elsewhere, one validator exists in that set only) and record different seeds; a case is a header built only from honest building blocks whose proposer credential / precommits / certificate votes are drawn against (set of header X, seed of header Y): full product proposer(X∈5 × Y∈5 × {first entitled record, that set's newcomer}) × precommits(X∈5 × Y∈5) [certificate fixture: + certificate votes (X∈6 × Y∈5) × precommit X; quick tier takes the two planes of the first product there]; each header goes through VerifyHeader, VerifySeal, VerifySideChainHeader, VerifyHeaders with the header alone and VerifyHeaders with SeedLookBack / StakeLookBack / StakeLookBack+3 preceding headers in the batch over a chain that does not have them yet (look-back headers resolved from `parents`) [+ VerifyAcHeader]; exactly one vector is the honest header (must be accepted everywhere), the others are decided by the same calculator (which knows only the protocol's look-back positions) || VERIFIER HISTORY: family of headers re-using material of another header: blocks B1 and B2 of the same proposer for the same (round, index) with different transactions × vote record at the proposal's index / re-voted at the next × credentials of this/the other index × signatures+aggregate over this/the sibling's hash × at this/the other index, + the same hash with one / no precommit [certificate fixture: precommits own/sibling's × certificate signatures over own/sibling's hash × own/other index, + one / no certificate vote]; every sequence of length 1 and 2 over (family × entry points) [quick: entry points equal or one of them VerifyHeader; pairs of two rejectable headers only as the same header twice; last header on B2, the B1 half being its mirror image] and every sequence of length 3 (thorough 4) over a core sub-family × 2 entry points runs on ONE fresh Server; the last verdict of every sequence must equal the calculator's and the verdict of an instance that verified nothing else; a wrong verdict is re-run twice and its history minimised before it is reported"
+	r.Rule = "every forged header is a value vector over the dimensions (vote subset of the entitled members; one vote mutation: duplicate ×2/×3, replayed credential of another round index/step/round, signature over another hash, weight +1/×2/2^32-1/0 per target voter, or a non-member vote: out-of-range index/house/offline/zero-stake; header-declared ValidatorThreshold, ProposerThreshold, CertValThreshold ∈ {0,1,10,protocol,×2,2^64-1} with credentials left honest or recomputed under the declared value; aggregate signature ∈ {listed, distinct signers, one dropped, other payload, infinity, empty, undecodable, non-member's}; UconValidators.RoundIndex ∈ {same, other with replayed votes, other with re-votes}; proposer ∈ {honest, j=0, wrong priority, seats+1, non-member, house, offline, proof of another index}); explored per fixture: the full product (subset × ValidatorThreshold × aggregate) + the full product of every pair of dimensions, others honest [+ three triples in thorough]; certificate-round scenario: full product (certificate subset × CertValThreshold declared by the planted look-back header × certificate aggregate) + (precommit subset × certificate subset); each header is built with real keys and given to the real VerifyHeader(seal) (single-deviation headers also to VerifySeal and VerifySideChainHeader; certificate headers also to VerifySeal and VerifyAcHeader) and to the independent quorum calculator; non-trivial = differs from the honest header; distinct = distinct value vectors actually built || LOOK-BACK SEPARATION: in every fixture the stake look-back header, the seed look-back header, the parent, the block itself, every other header (and, certificate rounds, the certificate stake look-back header) commit to DIFFERENT validator sets (other stakes ⇒ other seat counts and other voter indexes, a record without stake in the look-back set has stake elsewhere, one validator exists in that set only) and record different seeds; a case is a header built only from honest building blocks whose proposer credential / precommits / certificate votes are drawn against (set of header X, seed of header Y): full product proposer(X∈5 × Y∈5 × {first entitled record, that set's newcomer}) × precommits(X∈5 × Y∈5) [certificate fixture: + certificate votes (X∈6 × Y∈5) × precommit X; quick tier takes the two planes of the first product there]; each header goes through VerifyHeader, VerifySeal, VerifySideChainHeader, VerifyHeaders with the header alone and VerifyHeaders with SeedLookBack / StakeLookBack / StakeLookBack+3 preceding headers in the batch over a chain that does not have them yet (look-back headers resolved from `parents`) [+ VerifyAcHeader]; exactly one vector is the honest header (must be accepted everywhere), the others are decided by the same calculator (which knows only the protocol's look-back positions) || VERIFIER HISTORY: family of headers re-using material of another header: blocks B1 and B2 of the same proposer for the same (round, index) with different transactions × vote record at the proposal's index / re-voted at the next × credentials of this/the other index × signatures+aggregate over this/the sibling's hash × at this/the other index, + the same hash with one / no precommit [certificate fixture: precommits own/sibling's × certificate signatures over own/sibling's hash × own/other index, + one / no certificate vote]; every sequence of length 1 and 2 over (family × entry points) [quick: entry points equal or one of them VerifyHeader; pairs of two rejectable headers only as the same header twice; last header on B2, the B1 half being its mirror image] and every sequence of length 3 (thorough 4) over a core sub-family × 2 entry points runs on ONE fresh Server; the last verdict of every sequence must equal the calculator's and the verdict of an instance that verified nothing else; a wrong verdict is re-run twice and its history minimised before it is reported" + knownRule
 	var plan []runCfg
 	tc, mn := uint64(params.NetworkIdForTestCase), uint64(params.MainNetId)
 	if r.Quick() {
@@ -856,6 +877,24 @@ func Run(r *mc.Run) {
 			x.explore(r.Tier)
 		}
 		phase("forgery alphabet")
+		// known height: configuration c (contains a, plus the non-member records), b (the whale alone weighs exactly
+		// the quorum; quick: the boundary family only) and the certificate fixture of a; thorough: also b- (boundary
+		// family) and the certificate fixture of c
+		knownHere := p.net == tc && p.ver == params.YouCurrentVersion
+		switch {
+		case p.cert:
+			knownHere = knownHere && (p.cfg == "a" || (!r.Quick() && p.cfg == "c"))
+		case r.Quick():
+			knownHere = knownHere && (p.cfg == "c" || p.cfg == "b")
+		default:
+			knownHere = knownHere && p.cfg != "a"
+		}
+		if knownHere && !r.Expired() {
+			if info := x.exploreKnown(); info != nil {
+				fx["known_height"] = info
+			}
+			phase("known height")
+		}
 	}
 	r.SetExtra("fixtures", fixtures)
 }
@@ -891,6 +930,9 @@ func Replay(r *mc.Run, v *mc.Violation) {
 		return
 	case "history":
 		replayHist(r, v, bs)
+		return
+	case kindKnown:
+		replayKnown(r, v, bs)
 		return
 	}
 	var s Spec
